@@ -83,7 +83,7 @@ def run(check, repo: Repo) -> None:
                  fail_detail=f"returns {rets}")
 
     # knot placement
-    _knot_placement(check, mod, pre)
+    _knot_placement(check, mod, pre, repo)
 
     # ---- R2 knot-count agreement ------------------------------------------------------------------------
     calls = [c for c in calls_in(tr) if isinstance(c.func, ast.Call) and call_name(c.func) == "interp1d"]
@@ -188,7 +188,7 @@ def run(check, repo: Repo) -> None:
                      and "torch" not in construct.split(":")[0]), repo)
 
 
-def _knot_placement(check, mod, pre) -> None:
+def _knot_placement(check, mod, pre, repo=None) -> None:
     loop = None
     for n in walk_no_nested_defs(pre):
         if isinstance(n, ast.For) and any(isinstance(s, ast.Assign) and dotted(s.targets[0]) in ("v_slow", "u_fast") for s in n.body):
@@ -260,7 +260,22 @@ def _knot_placement(check, mod, pre) -> None:
     fast = [n.value for n in ast.walk(pre) if isinstance(n, ast.Assign) and dotted(n.targets[0]) == "self.scan_fast"]
     slow = [n.value for n in ast.walk(pre) if isinstance(n, ast.Assign) and dotted(n.targets[0]) == "self.scan_slow"]
     if len(fast) != 1 or len(slow) != 1:
-        raise AnalysisError("preprocess: scan vector definitions not found")
+        # derived in another method: then every place that (re)assigns the angles must refresh them, or preprocess() uses stale vectors
+        dmod_, dcls_ = repo.cls(f"{DR}:DriftCorrection")
+        meths = [f_ for f_ in dcls_.body if isinstance(f_, ast.FunctionDef)]
+        where_ = [f_ for f_ in meths if any(isinstance(n, ast.Assign) and dotted(n.targets[0]) == "self.scan_fast" for n in ast.walk(f_))]
+        if not where_:
+            raise AnalysisError("preprocess: scan vector definitions not found")
+        angle_writers = [f_ for f_ in meths if any(isinstance(n, ast.Assign) and dotted(n.targets[0]) in ("self._scan_direction_degrees", "self.scan_direction_degrees") for n in ast.walk(f_))
+                         and not (f_.name == "__init__" and not any(dotted(n.targets[0]) == "self._scan_direction_degrees" for n in ast.walk(f_) if isinstance(n, ast.Assign)))]
+        stale = [f_.name + ("@setter" if any(isinstance(d_, ast.Attribute) and d_.attr == "setter" for d_ in f_.decorator_list) else "") for f_ in angle_writers if f_ not in where_]
+        check.decide(not stale, "C15-R1", "the scan vectors are derived from the CURRENT scan angles whenever preprocess() builds the geometry", f"derived in {[f_.name for f_ in where_]}", mod.line(where_[0]),
+                     fail_detail=f"scan_fast/scan_slow are computed in {[f_.name for f_ in where_]}, but {stale} assigns the angles without refreshing them: after the angles are reassigned "
+                                 f"preprocess() builds knots and interpolators from the construction-time rotation")
+        fast = [n.value for n in ast.walk(where_[0]) if isinstance(n, ast.Assign) and dotted(n.targets[0]) == "self.scan_fast"]
+        slow = [n.value for n in ast.walk(where_[0]) if isinstance(n, ast.Assign) and dotted(n.targets[0]) == "self.scan_slow"]
+        if len(fast) != 1 or len(slow) != 1:
+            raise AnalysisError("scan vector definitions not found")
 
     def comps(e):
         if isinstance(e, ast.Call) and call_name(e) == "np.stack" and isinstance(e.args[0], ast.List):
